@@ -35,8 +35,19 @@ def sub(cls):
     return _SUB[cls]
 
 
-def mk_track(kind, frames, rng):
-    t = _mk_track(kind, frames, rng)
+def mk_track(kind, frames, rng, was=None):
+    import blockrun as B
+    if was is not None and was != frames or rng.random() < 0.2:
+        # a track that had ANOTHER length when it was constructed: its arrays were re-bound afterwards through the public attributes
+        # (cut, or replaced by a longer recording). What counts is the number of frames it has when it is offered.
+        other = was if was is not None and was != frames else rng.choice([x for x in [frames + 1, frames + 4, 2 * frames + 1, max(0, frames - 1), 0] if x != frames])
+        t = _mk_track(kind, other, rng)
+        getattr(t, "nFrames", None), getattr(t, "nSamples", None)      # (its frame count has been asked for once already)
+        fresh = _mk_track(kind, frames, rng)
+        for attr in B.TRACK_ARRAYS[kind]:
+            setattr(t, attr, getattr(fresh, attr) if other < frames else getattr(t, attr)[:frames])
+    else:
+        t = _mk_track(kind, frames, rng)
     if rng.random() < 0.12:
         t.__class__ = sub(type(t))
     return t
@@ -63,7 +74,8 @@ def gen_offered(kind, n, rng, ids):
         return t, [Sym("t"), ids[id(t)], n]
     if r < 0.8:
         f = rng.choice([x for x in [0, 1, n - 1, n + 1, 2 * n] if x != n and x >= 0])
-        t = mk_track(kind, f, rng)
+        # (four in ten of the wrong-length tracks HAD the block's length when they were constructed and were cut or extended since)
+        t = mk_track(kind, f, rng, was=n if rng.random() < 0.4 else None)
         ids[id(t)] = len(ids) + 1
         return t, [Sym("t"), ids[id(t)], f]
     other_kind = rng.choice([k for k in ("data3d", "force3d", "emg") if k != kind])
@@ -159,7 +171,7 @@ def run(ctx):
                     if rng.random() < 0.5 and len(values) > 1:
                         del values[0]
                     after_ids = held(kind, blk, ids)
-                    if after_ids != before_ids or any((t.nFrames != n) for t in blk):
+                    if after_ids != before_ids or any((len(t.data if hasattr(t, "data") else t.force) != n) for t in blk):
                         aliased.append((kind, n, [str(c) for c in calls], before_ids, after_ids))
             else:
                 o, m = gen_offered(kind, n, rng, ids)
@@ -170,7 +182,9 @@ def run(ctx):
                     exc = e
                 calls.append([Sym("add"), m])
                 desc = "add"
-            lens_ok = all((t.nSamples if kind == "emg" else t.nFrames) == n for t in blk)
+            # the length of a track is the length of the arrays it holds NOW (not what the track says about itself)
+            import blockrun as B
+            lens_ok = all(len(getattr(t, a)) == n for t in blk for a in B.TRACK_ARRAYS[kind])
             given = None
             if desc.startswith("assign") and exc is None:
                 given = [ids.get(id(o), -1) for o, _ in offered]       # "installs exactly that list"
